@@ -1,0 +1,5 @@
+//go:build !verif
+
+package bondmachine
+
+func verifYield(procId int) {}
